@@ -252,8 +252,8 @@ func cmdCheck(args []string) {
 		os.Exit(code)
 	}
 	bin, rst := buildWorker(scratch, cfg.Variant)
-	fmt.Printf("verifsim: overlay from %s: %d packages, %d files rewritten (%d imports, %d go statements, %d channel operations, %d dynamic makes, %d map ranges, %d loop yields, %d tuning knobs); build %.1fs\n",
-		repoDir(), rst.Packages, rst.Files, rst.Imports, rst.GoStmts, rst.ChanOps, rst.Makes, rst.MapRanges, rst.LoopYields, rst.Knobs, time.Since(start).Seconds())
+	fmt.Printf("verifsim: overlay from %s: %d packages, %d files rewritten (%d imports, %d go statements, %d channel operations, %d dynamic makes, %d map ranges, %d loop and %d statement yields, %d tuning knobs); build %.1fs\n",
+		repoDir(), rst.Packages, rst.Files, rst.Imports, rst.GoStmts, rst.ChanOps, rst.Makes, rst.MapRanges, rst.LoopYields, rst.StmtYields, rst.Knobs, time.Since(start).Seconds())
 
 	// known findings of this property
 	var knownKeys []string
